@@ -99,8 +99,8 @@ CHECKS["C03"] = dict(
 CHECKS["C15"] = dict(
    category="exploration", engine="B small-scope enumeration over the merged schema corpus (C01/C03/C04/C09 generators + hostile keys)",
    technique="exhaustive enumeration of all Check-accepted generated schemas; well-formedness by reference PDA + encoding/json, self-validation, compact-equality",
-   text="Every Check-accepted case of the merged generators (all rule-free schemas <= 3/4 nodes in both configs, type-reference/or/allOf/additionalProperties/key-shortcut families, 34 rule slots x 13 contexts, all fully inhabited type graphs over 1-2 types and ring/diamond families with optional/array/terminating edges, hostile keys and strings): Example() must succeed, be well-formed JSON, be accepted by its own schema, and equal the compact example for plain-JSON schemas.",
-   note="Trusted: reference PDA, encoding/json. Known finding (class): recursion cut-off yields self-rejected or empty examples on cyclic type graphs.",
+   text="Every Check-accepted case of the merged generators (all rule-free schemas <= 3/4 nodes in both configs, type-reference/or/allOf/additionalProperties/key-shortcut families, 34 rule slots x 13 contexts, all fully inhabited type graphs over 1-2 types and ring/diamond families with optional/array/terminating edges, the deep family of two types with every pair of slots per object body, hostile keys and strings): Example() must succeed, be well-formed JSON, be accepted by its own schema, and equal the compact example for plain-JSON schemas.",
+   note="Trusted: reference PDA, encoding/json. Known finding (class decided by the check: a simulation of the documented cut-off policy itself yields a rejected example): recursion cut-off at required positions / first alternative gives self-rejected or empty examples.",
    design="4/C15")
 
 CHECKS["C16"] = dict(
@@ -118,10 +118,10 @@ CHECKS["C13"] = dict(
    design="4/C13")
 
 CHECKS["C07"] = dict(
-   category="exploration", engine="B exhaustive strings + bounded-deviation corpus edits + E construction-site enumeration; isolated memory-capped processes",
-   technique="exhaustive enumeration of all short inputs and all 1-edit neighbours of a corpus through every public method; go/parser enumeration of every error construction site; process-level crash detection",
-   text="Every string of <= 4 (thorough 5) symbols over a 26-symbol schema alphabet in each role (schema, user type under 3 roots, enum rule, regex type, document in 2 modes and under 4 schemas) through every public method on fresh objects and in sequence; every truncation and every single-byte deletion, insertion and substitution at every offset of all corpus files (repository testdata + generator outputs); huge-exponent numerals, deep nesting and megabyte inputs in isolated processes under a 2.5 GB cap; every errors.Format call site and every template row executed. No call may panic, kill the process or hang; every error must expose ErrCode()+Message(), a Position() inside the source it names, and render without panicking.",
-   note="Not asserted: API misuse that is not input-driven. Known findings: infinite-recursion error is a bare Errorf (text pinned by a repository test); huge exponents are expanded into memory (OOM).",
+   category="exploration", engine="B exhaustive strings + bounded-deviation corpus edits + grammar-directed product + E construction-site enumeration; isolated memory-capped processes",
+   technique="exhaustive enumeration of all short inputs, all 1-edit neighbours of a corpus and a grammar-directed product of hostile rule values through every public method; go/parser enumeration of every error construction site; process-level crash detection",
+   text="Every string of <= 4 (thorough 5) symbols over a 26-symbol schema alphabet in each role (schema, user type under 7 usages: alias, property, item, key shortcut, allOf parent, type rule, or rule; enum rule, regex type, document in 2 modes and under 4 schemas) through every public method on fresh objects and in sequence; every truncation and every single-byte deletion, insertion and substitution at every offset of all corpus files (repository testdata + generator outputs); a grammar-directed product of 7 examples x 21 rule names x 46 hostile rule values x 6 annotation positions (+ second rules in both orders), 140 type bodies over self/other/missing references, enum and regex bodies x 18 comment/literal tails; huge-exponent numerals, deep nesting and megabyte inputs in isolated processes under a 2.5 GB cap; every errors.Format call site and every template row executed. No call may panic, kill the process or hang; every error must expose ErrCode()+Message(), a Position() inside the source it names, and render without panicking.",
+   note="Not asserted: API misuse that is not input-driven. Defects that depend on map iteration order are found deterministically only by C11's map-order scenarios. Known findings: infinite-recursion error is a bare Errorf (text pinned by a repository test); huge exponents are expanded into memory (OOM).",
    design="4/C07")
 
 CHECKS["C12"] = dict(
@@ -134,7 +134,7 @@ CHECKS["C12"] = dict(
 CHECKS["C11"] = dict(
    category="model_checking", engine="A/D exhaustive operation histories on live objects + environment-choice exploration (pool answers, map iteration orders) through the build overlay",
    technique="exhaustive enumeration of all operation histories up to depth 3/4 over a pool of live objects against fresh-object results with returned-value snapshots; exhaustive single (thorough: double) deviations of every sync.Pool answer and of every dynamic range-over-map order",
-   text="All histories of <= 3 (thorough 4) operations from a 41-operation alphabet over live Schema/Document/Enum/Regex objects (plus 12-fold repetitions and round-robins): every result must equal the fresh-object result and every value handed out must be unchanged at the end; for histories <= 2 every pool answer is additionally deviated (fresh / oldest object). The library is built through an overlay that rewrites every range-over-map into iteration over an explicitly ordered key list: for 1200 scenarios every single (thorough: pair of) dynamic iteration order deviation (descending, rotations) must leave all public results unchanged; static sites never reached with two keys are reported as uncovered.",
+   text="All histories of <= 3 (thorough 4) operations from a 41-operation alphabet over live Schema/Document/Enum/Regex objects (plus 12-fold repetitions and round-robins): every result must equal the fresh-object result and every value handed out must be unchanged at the end; for histories <= 2 every pool answer is additionally deviated (fresh / oldest object). The library is built through an overlay that rewrites every range-over-map into iteration over an explicitly ordered key list: for a corpus of scenarios (a fixed slice of the C03/C09 generators in quick, all in thorough; multi-shortcut objects, allOf chains, errors located inside added types and allOf parents) every single (thorough: pair of) dynamic iteration order deviation (descending, rotations) must leave verdict, code, position, file and renderability of errors, AST, example and used types unchanged; static sites never reached with two keys are reported as uncovered.",
    note="Trusted: the overlay rewrite (sound: every produced order is a legal Go order). Message text is not compared. Consumed Document objects are not re-validated.",
    design="4/C11")
 
